@@ -87,7 +87,7 @@ Section Smear.
   Record part := {
     ppos : fv * fv * fv;                       (* particle.x, .y, .z *)
     pattr : string -> option K;                (* particle.<attr> of the quantity table; None = NaN *)
-    pmom_nan : bool;                           (* np.isnan(px) or np.isnan(py) (the code tests py twice) *)
+    pmom_nan : bool;                           (* np.isnan(px) or np.isnan(py) or np.isnan(pz) *)
     pkern : Z * Z * Z -> option K              (* kernel_value.pdf at the stencil offsets; None = NaN *)
   }.
 
